@@ -134,6 +134,29 @@ class HeapDomain(Domain):
                     "not updated" % s.d[k], s.d[k].rsplit(" at ", 1)[-1]))
 
 
+def grow_copies_whole_heap(m):
+    """Does hashheap_grow copy (old heap_size + 2) tags, i.e. all live entries *and* both scratch slots (slot 0
+    holds the most recently dequeued entry)?  Returns (ok, description)."""
+    g = m.need("hashheap_grow")
+    gcx = FuncCtx(m, g)
+    hs_store = [inv.stmt_index_containing(g, n) for l, r, k, n in inv.stores(g)
+                if gcx.canon(l) == g.params[0]["name"] + "->heap_size"]
+    cpn = [x for x in walk(g.body) if x["kind"] == "CallExpr" and callee_ref(x) == "cmi_memcpy"]
+    if cpn and hs_store:
+        sz = gcx.resolve(kids(cpn[0])[3])
+        txt = render(sz)
+        src = render(gcx.resolve(kids(cpn[0])[2]))
+        mm = re.fullmatch(r"\(\((\w+) \+ 2\) \* sizeof\(struct cmi_heap_tag\)\)", txt)
+        if mm:
+            for x in walk(g.body):
+                if x["kind"] == "VarDecl" and x.get("name") == mm.group(1) and kids(x):
+                    di = inv.stmt_index_containing(g, x)
+                    if render(kids(x)[0]).endswith("->heap_size") and di is not None and di < min(hs_store):
+                        return True, txt
+        return False, txt
+    return False, "no memcpy of the old heap"
+
+
 def rules(rep, m):
     hh = {f.name: f for f in m.funcs.values() if m.rel(f.file) == UNIT}
     for need in ("cmi_hashheap_enqueue", "cmi_hashheap_dequeue", "cmi_hashheap_remove", "heap_up", "heap_down",
